@@ -84,7 +84,7 @@ def observe(g):
         "toCall": attempt(lambda: g.amount_to_call), "minBet": attempt(lambda: g.min_bet),
         "maxBet": attempt(lambda: g.max_bet), "valid": attempt(lambda: sorted(g.valid_actions)),
         "closed": attempt(lambda: bool(g.is_action_closed())),
-        "pnl": attempt(lambda: [g.player_pnl(p) for p in range(n)]),
+        "pnl": attempt(lambda: (lambda d: [d[p] for p in range(n)] if all(d[p] == g.player_pnl(p) for p in range(n)) else "!")(g.pnl)),
     }
     return o
 
